@@ -36,7 +36,7 @@ func init() {
 		Rule: "every operand pair of the bounded domain ([-B,B]^2, boundary-set^2, power table a in [-20,20] x b in [0,70]) x operators " +
 			"{+,-,*,//,%,**,/,<=>,unary -} is evaluated on the real built-ins (direct call and through parsed source) and compared with math/big; " +
 			"the source pass is preceded and followed, in the same process, by every operator applied to an instance of an Int descendant that overrides them all (history: who used an operator first); " +
-			"a case is non-trivial when the oracle defines its result (exact result fits in int64 / zero divisor); distinct = distinct (op,a,b,mode); round 7: Every operator is also applied to operands that are ints by value but not written as int literals (booleans, computed zeros, instances of an Int descendant, conversions, the extremes) against 7 plain values and against each other; a zero divisor must raise however the zero was made.",
+			"a case is non-trivial when the oracle defines its result (exact result fits in int64 / zero divisor); distinct = distinct (op,a,b,mode); round 7: Every operator is also applied to operands that are ints by value but not written as int literals (booleans, computed zeros, instances of an Int descendant, conversions, the extremes) against 7 plain values and against each other; a zero divisor must raise however the zero was made.; round 8: Operands above 2^53 are also written in exponent and radix form.",
 		Assumptions: []string{
 			"math/big and strconv are correct",
 			"results that do not fit in 64 bits are unconstrained by the property (don't-care)",
